@@ -6,6 +6,7 @@ import (
 )
 
 type gctx struct {
+	loops    bool // cycles allowed (Graph API, any-predecessor mode, top level of the sequence)
 	r        *lib.Rng
 	nextID   int
 	nextKey  int
@@ -100,8 +101,13 @@ func (g *gctx) wrap(curT bool, curKeys []int, wantT bool) (w *Wrap, innerIn, inn
 	if g.r.Chance(1, 7) {
 		w.Pre = g.handler(curT)
 		if curT && w.In != nil {
-			// a map->map pre-handler replaces the keys: the input key would be gone
-			w.Pre = nil
+			// a map->map pre-handler replaces the keys: the node then reads the handler's key
+			if g.inject == "" {
+				k := w.Pre.K1
+				w.In = &k
+			} else {
+				w.Pre = nil
+			}
 		}
 	}
 	if g.r.Chance(1, 7) {
@@ -126,6 +132,16 @@ func (g *gctx) genNode(curT bool, curKeys []int, wantT bool) stageOut {
 	g.budget--
 	w, iin, iout, forced := g.wrap(curT, curKeys, wantT)
 	sp := g.nspec(kindOf(iin, iout))
+	if w == nil || w.Out == nil && w.Post == nil {
+		if g.inject == "wrongtype" && !g.injected {
+			// the consumers are declared with the other type: a dynamic type error in every paradigm
+			g.injected = true
+			sp = g.nspec(kindOf(iin, !iout))
+			sp.AnyOut, sp.AnyMap = true, iout
+		} else if g.r.Chance(1, 6) {
+			sp.AnyOut, sp.AnyMap = true, iout
+		}
+	}
 	keys := forced
 	if keys == nil {
 		switch sp.Kind {
@@ -148,13 +164,30 @@ func (g *gctx) genSub(curT bool, curKeys []int, wantT bool, depth int) stageOut 
 		}
 	}
 	id := g.id()
-	inner := g.genSeq(iin, innerKeys, iout, depth+1, g.r.Range(1, 3), false, true)
+	front := ""
+	if g.inject == "" {
+		switch g.r.Intn(6) {
+		case 0, 1:
+			front = "wf"
+		case 2:
+			front = "chain"
+		}
+	}
+	var inner stageOut
+	switch front {
+	case "wf":
+		inner, _ = g.wfSeqTo(iin, innerKeys, depth+1, g.r.Range(1, 3), &iout)
+	case "chain":
+		inner = g.chainSeqTo(iin, innerKeys, g.r.Range(1, 3), &iout)
+	default:
+		inner = g.genSeq(iin, innerKeys, iout, depth+1, g.r.Range(1, 3), false, true)
+	}
 	keys := forced
 	if keys == nil {
 		keys = inner.keys
 	}
 	dag := !inner.p.balanced() || g.r.Chance(1, 2)
-	return stageOut{&Prog{Op: "sub", W: w, ID: id, Kids: []*Prog{inner.p}, DAG: dag}, keys, true}
+	return stageOut{&Prog{Op: "sub", W: w, ID: id, Kids: []*Prog{inner.p}, DAG: dag, Front: front}, keys, true}
 }
 
 func (w *Wrap) InOrNil() *int {
@@ -229,6 +262,7 @@ func sortInts(a []int) {
 func (g *gctx) genSeq(tin bool, keys []int, tout bool, depth int, nStages int, altStart bool, singleIn bool) stageOut {
 	var stages []*Prog
 	curT, curKeys, single := tin, keys, singleIn
+	afterLoop := false
 	for i := 0; i < nStages; i++ {
 		last := i == nStages-1
 		wantT := tout
@@ -239,10 +273,16 @@ func (g *gctx) genSeq(tin bool, keys []int, tout bool, depth int, nStages int, a
 		var st stageOut
 		roll := g.r.Intn(12)
 		deep := depth < g.maxDepth && g.budget > 2
+		isLoop := false
 		switch {
-		case roll < 2 && deep && wantT && !(first && altStart):
+		case g.loops && depth == 0 && !curT && g.budget > 1 && !afterLoop && g.r.Chance(1, 3):
+			// a cycle over a string: body (single entry, single exit), condition, back or on
+			wantT = false
+			st = g.genLoop(depth)
+			isLoop = true
+		case roll < 2 && deep && wantT && !(first && altStart) && !afterLoop:
 			st = g.genPar(curT, curKeys, depth, single)
-		case roll < 4 && deep && single && !(first && altStart):
+		case roll < 4 && deep && single && !(first && altStart) && !afterLoop:
 			st = g.genBranch(curT, curKeys, wantT, depth)
 		case roll < 5 && deep:
 			st = g.genSub(curT, curKeys, wantT, depth)
@@ -251,6 +291,7 @@ func (g *gctx) genSeq(tin bool, keys []int, tout bool, depth int, nStages int, a
 		}
 		stages = append(stages, st.p)
 		curT, curKeys, single = wantT, st.keys, st.single
+		afterLoop = isLoop
 		if g.budget <= 0 && !last {
 			// out of budget: close the sequence with a plain node of the right type
 			if curT != tout || true {
@@ -261,10 +302,43 @@ func (g *gctx) genSeq(tin bool, keys []int, tout bool, depth int, nStages int, a
 			break
 		}
 	}
+	if curT != tout {
+		// a loop came last and left a string where a map is wanted
+		st := g.genNode(curT, curKeys, tout)
+		stages = append(stages, st.p)
+		curKeys, single = st.keys, st.single
+	}
 	if len(stages) == 1 {
 		return stageOut{stages[0], curKeys, single}
 	}
 	return stageOut{&Prog{Op: "seq", Kids: stages}, curKeys, single}
+}
+
+// genLoop: body from a string to a string with one entry node and one exit node, and the
+// condition that sends the value round again while it is shorter than Bound.
+func (g *gctx) genLoop(depth int) stageOut {
+	saved := g.loops
+	g.loops = false
+	body := g.genSeq(false, nil, false, depth+1, g.r.Range(1, 2), true, true)
+	g.loops = saved
+	if !body.single {
+		tail := g.genNode(body.p.outMap(), body.keys, false)
+		body = stageOut{&Prog{Op: "seq", Kids: []*Prog{body.p, tail.p}}, nil, true}
+	}
+	c := &CSpec{ID: g.id(), Collect: g.r.Chance(1, 2), Bound: g.r.Range(0, 40)}
+	return stageOut{&Prog{Op: "loop", C: c, Kids: []*Prog{body.p}}, nil, true}
+}
+
+// unloop replaces every cycle by one pass through its body (used when the program turns
+// out to need the all-predecessor mode, which has no cycles).
+func unloop(p *Prog) *Prog {
+	for i, k := range p.Kids {
+		p.Kids[i] = unloop(k)
+	}
+	if p.Op == "loop" {
+		return p.Kids[0]
+	}
+	return p
 }
 
 var words = []string{"", "a", "hello", "xy z", "0123456789", "q", "Stream", "-", "ab"}
@@ -307,14 +381,49 @@ func (engine) Generate(r *lib.Rng, tier string, i int) any {
 		if r.Chance(1, 4) {
 			sp.Fail = r.Range(1, 2)
 		}
+		if r.Chance(1, 4) {
+			sp.AnyOut, sp.AnyMap = true, sp.outMap()
+		}
 		chunks, _ := g.genInput(sp.inMap())
 		return &Case{Kind: "pack", Spec: sp, Chunks: chunks}
+	}
+	front := ""
+	switch r.Intn(10) {
+	case 0, 1, 2:
+		front = "wf"
+	case 3:
+		front = "chain"
+	}
+	if front == "wf" {
+		if r.Chance(1, 15) {
+			g.inject = "fmkey"
+		}
+		tin := r.Chance(2, 5)
+		chunks, keys := g.genInput(tin)
+		// a branch directly on START would leave the workflow without a start node: singleIn = false
+		st, _ := g.wfSeq(tin, keys, 0, r.Range(1, 4), false, false, false, false)
+		c := &Case{Kind: "prog", Front: "wf", Prog: st.p, Chunks: chunks, DAG: true}
+		if g.injected {
+			c.Inject = g.inject
+		}
+		g.chooseFailure(r, st.p)
+		return c
+	}
+	if front == "chain" {
+		tin := r.Chance(2, 5)
+		chunks, keys := g.genInput(tin)
+		st := g.chainSeq(tin, keys, r.Range(1, 4))
+		c := &Case{Kind: "prog", Front: "chain", Prog: st.p, Chunks: chunks}
+		g.chooseFailure(r, st.p)
+		return c
 	}
 	switch r.Intn(30) {
 	case 0:
 		g.inject = "dupkey"
 	case 1:
 		g.inject = "nokey"
+	case 2:
+		g.inject = "wrongtype"
 	}
 	tin, tout := r.Chance(2, 5), r.Chance(2, 5)
 	if g.inject == "dupkey" {
@@ -333,19 +442,35 @@ func (engine) Generate(r *lib.Rng, tier string, i int) any {
 		}
 		st = stageOut{p: &Prog{Op: "seq", Kids: stages}}
 	} else {
+		g.loops = g.inject == "" && r.Chance(1, 2)
 		st = g.genSeq(tin, keys, tout, 0, r.Range(1, 4), false, true)
+		g.loops = false
 	}
 	c := &Case{Kind: "prog", Prog: st.p, Chunks: chunks}
 	if g.injected {
 		c.Inject = g.inject
 	}
-	c.DAG = !st.p.balanced() || r.Chance(1, 2)
+	if st.p.hasLoop() {
+		if st.p.balanced() {
+			c.DAG = false
+		} else {
+			c.Prog = unloop(st.p)
+			c.DAG = true
+		}
+	} else {
+		c.DAG = !st.p.balanced() || r.Chance(1, 2)
+	}
 
-	// failure: one executable object chosen to fail, at call time or mid-stream
+	g.chooseFailure(r, st.p)
+	return c
+}
+
+// failure: in 1/5 of the cases one executable object is chosen to fail, at call time or mid-stream
+func (g *gctx) chooseFailure(r *lib.Rng, p *Prog) {
 	if r.Chance(1, 5) {
 		var specs []*NSpec
 		var conds []*CSpec
-		st.p.walk(func(q *Prog) {
+		p.walk(func(q *Prog) {
 			if q.N != nil {
 				specs = append(specs, q.N)
 			}
@@ -366,5 +491,255 @@ func (engine) Generate(r *lib.Rng, tier string, i int) any {
 			conds[k-len(specs)].Fail = true
 		}
 	}
-	return c
+}
+
+// ---------------------------------------------------------------- Workflow-shaped programs
+
+// outMapFor chooses the field mapping that turns a raw output (type rawT, guaranteed keys
+// rawKeys) into what the next stage sees (type nextT); forceTo: the mapping must be a To
+// mapping (fan-in / re-join: every incoming edge writes its own fields).
+// Returns the mapping (nil = whole output), the resulting type and guaranteed keys.
+func (g *gctx) outMapFor(rawT bool, rawKeys []int, nextT bool, forceTo bool) (*FMap, bool, []int) {
+	pickKey := func() *int {
+		var k int
+		if g.inject == "fmkey" && !g.injected {
+			k = g.key() // a key nobody produces
+			g.injected = true
+		} else {
+			k = rawKeys[g.r.Intn(len(rawKeys))]
+		}
+		return &k
+	}
+	switch {
+	case !rawT && nextT:
+		// ToField, sometimes into two fields
+		f := &FMap{To: []FEntry{{To: g.key()}}}
+		if g.r.Chance(1, 4) {
+			f.To = append(f.To, FEntry{To: g.key()})
+		}
+		var keys []int
+		for _, e := range f.To {
+			keys = append(keys, e.To)
+		}
+		return f, true, keys
+	case rawT && !nextT && len(rawKeys) > 0:
+		return &FMap{Take: pickKey()}, false, nil
+	case rawT && nextT && len(rawKeys) > 0 && (forceTo || g.r.Chance(1, 2)):
+		f := &FMap{}
+		var keys []int
+		n := g.r.Range(1, len(rawKeys))
+		perm := append([]int(nil), rawKeys...)
+		for i := 0; i < n; i++ {
+			j := i + g.r.Intn(len(perm)-i)
+			perm[i], perm[j] = perm[j], perm[i]
+			from := perm[i]
+			if i == 0 {
+				from = *pickKey()
+			}
+			to := g.key()
+			f.To = append(f.To, FEntry{From: &from, To: to})
+			keys = append(keys, to)
+		}
+		return f, true, keys
+	}
+	return nil, rawT, rawKeys
+}
+
+// wfLeaf: a node or nested graph whose outgoing edges carry a field mapping towards a
+// value of type nextT (nil: free choice).
+func (g *gctx) wfLeaf(curT bool, curKeys []int, nextT *bool, forceTo bool, depth int, allowSub bool) stageOut {
+	rawT := g.r.Chance(1, 2)
+	want := rawT
+	if nextT != nil {
+		want = *nextT
+	} else if g.r.Chance(1, 2) {
+		want = !rawT
+	}
+	if forceTo {
+		want = true
+	}
+	var st stageOut
+	if allowSub && g.r.Chance(1, 5) {
+		st = g.genSub(curT, curKeys, rawT, depth)
+	} else {
+		st = g.genNode(curT, curKeys, rawT)
+	}
+	if rawT && len(st.keys) == 0 && (forceTo || !want) {
+		// a map whose keys are not known statically cannot be read field by field: use a string producer
+		rawT = false
+		st = g.genNode(curT, curKeys, rawT)
+	}
+	f, t, keys := g.outMapFor(rawT, st.keys, want, forceTo)
+	st.p.OutMap = f
+	if f != nil && st.p.N != nil {
+		st.p.N.AnyOut = false // field mappings read a statically typed output here
+	}
+	_ = t
+	return stageOut{st.p, keys, true}
+}
+
+// wfSeq: nStages stages of a Workflow. endTo: every exit of the sequence must carry a To
+// mapping (it ends in a fan-in or a re-join). Returns the type the successor sees in tout.
+// mappedIn: the edges entering the sequence carry a field mapping (a branch condition reads
+// the unmapped output of its start node, so no branch may come first).
+func (g *gctx) wfSeq(tin bool, keys []int, depth int, nStages int, endTo bool, altStart bool, singleIn bool, mappedIn bool) (stageOut, bool) {
+	return g.wfSeq2(tin, keys, depth, nStages, endTo, altStart, singleIn, mappedIn, nil)
+}
+
+// wfSeqTo: a whole workflow from START (no branch first) to a value of type *tout
+func (g *gctx) wfSeqTo(tin bool, keys []int, depth int, nStages int, tout *bool) (stageOut, bool) {
+	return g.wfSeq2(tin, keys, depth, nStages, false, false, false, false, tout)
+}
+
+func (g *gctx) wfSeq2(tin bool, keys []int, depth int, nStages int, endTo bool, altStart bool, singleIn bool, mappedIn bool, tout *bool) (stageOut, bool) {
+	var stages []*Prog
+	curT, curKeys, single := tin, keys, singleIn
+	prevMapped := mappedIn
+	for i := 0; i < nStages; i++ {
+		last := i == nStages-1
+		first := i == 0
+		roll := g.r.Intn(12)
+		deep := depth < g.maxDepth && g.budget > 2
+		var st stageOut
+		strLast := last && tout != nil && !*tout // the sequence must end in a string: no fan-in / re-join last
+		switch {
+		case roll < 2 && deep && !(first && altStart) && !strLast:
+			n := g.r.Range(2, 3)
+			var kids []*Prog
+			var ks []int
+			for j := 0; j < n; j++ {
+				k, _ := g.wfSeq(curT, curKeys, depth+1, g.r.Range(1, 2), true, false, single, prevMapped)
+				kids = append(kids, k.p)
+				ks = append(ks, k.keys...)
+			}
+			st = stageOut{&Prog{Op: "par", Kids: kids}, ks, false}
+			curT, prevMapped = true, true
+		case roll < 4 && deep && single && !prevMapped && !(first && altStart) && !strLast:
+			n := g.r.Range(2, 3)
+			c := &CSpec{ID: g.id(), Collect: g.r.Chance(1, 2)}
+			var kids []*Prog
+			for j := 0; j < n; j++ {
+				k, _ := g.wfSeq(curT, curKeys, depth+1, g.r.Range(1, 2), true, true, true, false)
+				kids = append(kids, k.p)
+			}
+			st = stageOut{&Prog{Op: "branch", C: c, Kids: kids}, nil, false}
+			curT, prevMapped = true, true
+		default:
+			var next *bool
+			if last && endTo {
+				t := true
+				next = &t
+			} else if last && tout != nil {
+				next = tout
+			}
+			st = g.wfLeaf(curT, curKeys, next, last && endTo, depth, deep)
+			curT = st.p.outMap()
+			prevMapped = st.p.OutMap != nil
+		}
+		stages = append(stages, st.p)
+		curKeys, single = st.keys, st.single
+		if g.budget <= 0 && !last {
+			if endTo {
+				t := true
+				st = g.wfLeaf(curT, curKeys, &t, true, depth, false)
+				stages = append(stages, st.p)
+				curT, curKeys, single = true, st.keys, true
+			} else if tout != nil && curT != *tout {
+				st = g.wfLeaf(curT, curKeys, tout, false, depth, false)
+				stages = append(stages, st.p)
+				curT, curKeys, single = st.p.outMap(), st.keys, true
+			}
+			break
+		}
+	}
+	if len(stages) == 1 {
+		return stageOut{stages[0], curKeys, single}, curT
+	}
+	return stageOut{&Prog{Op: "seq", Kids: stages}, curKeys, single}, curT
+}
+
+// ---------------------------------------------------------------- Chain-shaped programs
+
+func (g *gctx) chainSeq(tin bool, keys []int, nStages int) stageOut {
+	return g.chainSeqTo(tin, keys, nStages, nil)
+}
+
+func (g *gctx) chainSeqTo(tin bool, keys []int, nStages int, tout *bool) stageOut {
+	var stages []*Prog
+	curT, curKeys, single := tin, keys, true
+	for i := 0; i < nStages; i++ {
+		last := i == nStages-1
+		wantT := g.r.Chance(1, 2)
+		if last && tout != nil {
+			wantT = *tout
+		}
+		roll := g.r.Intn(12)
+		deep := g.budget > 2
+		var st stageOut
+		switch {
+		case roll < 3 && deep && single && !(last && tout != nil && !*tout):
+			n := g.r.Range(2, 3)
+			var kids []*Prog
+			var ks []int
+			for j := 0; j < n; j++ {
+				g.budget--
+				w := &Wrap{}
+				innerIn := curT
+				if curT && len(curKeys) > 0 && g.r.Chance(1, 2) {
+					k := curKeys[g.r.Intn(len(curKeys))]
+					w.In = &k
+					innerIn = false
+				}
+				ok := g.key()
+				w.Out = &ok
+				ks = append(ks, ok)
+				kids = append(kids, &Prog{Op: "node", W: w, N: g.nspec(kindOf(innerIn, false))})
+			}
+			st = stageOut{&Prog{Op: "par", Kids: kids}, ks, false}
+			wantT = true
+		case roll < 6 && deep && single:
+			n := g.r.Range(2, 3)
+			c := &CSpec{ID: g.id(), Collect: g.r.Chance(1, 2)}
+			var kids []*Prog
+			cnt := map[int]int{}
+			for j := 0; j < n; j++ {
+				var k stageOut
+				if g.r.Chance(1, 5) {
+					k = g.genSub(curT, curKeys, wantT, 1)
+				} else {
+					k = g.genNode(curT, curKeys, wantT)
+				}
+				kids = append(kids, k.p)
+				for _, key := range k.keys {
+					cnt[key]++
+				}
+			}
+			var common []int
+			for key, c := range cnt {
+				if c == n {
+					common = append(common, key)
+				}
+			}
+			sortInts(common)
+			st = stageOut{&Prog{Op: "branch", C: c, Kids: kids}, common, false}
+		case roll < 7 && deep:
+			st = g.genSub(curT, curKeys, wantT, 1)
+		default:
+			st = g.genNode(curT, curKeys, wantT)
+		}
+		stages = append(stages, st.p)
+		curT, curKeys, single = wantT, st.keys, st.single
+		if g.budget <= 0 && !last {
+			if tout != nil && curT != *tout {
+				st = g.genNode(curT, curKeys, *tout)
+				stages = append(stages, st.p)
+				curT, curKeys, single = *tout, st.keys, true
+			}
+			break
+		}
+	}
+	if len(stages) == 1 {
+		return stageOut{stages[0], curKeys, single}
+	}
+	return stageOut{&Prog{Op: "seq", Kids: stages}, curKeys, single}
 }
